@@ -193,7 +193,7 @@ static void dispatch_sweep() {
 		Rec want[4]; int n = 0;
 		want[n++] = Rec{static_cast<int16_t>(j), M_XG, 0, nullptr}; want[n++] = Rec{static_cast<int16_t>(k), M_EG, 0, nullptr};
 		if (j == k) want[n++] = Rec{static_cast<int16_t>(k), M_REENTER, 0, nullptr}; else { want[n++] = Rec{static_cast<int16_t>(j), M_EXIT, 0, nullptr}; want[n++] = Rec{static_cast<int16_t>(k), M_ENTER, 0, nullptr}; }
-		if (!expect_trace("immediateChangeTo", j, k, want, n, rp)) continue;
+		expect_trace("immediateChangeTo", j, k, want, n, rp);   // a mismatch is reported; the phases are examined all the same
 		if (m.activeStateId() != k) { violation("dispatch-activity", rp, "N=%d: immediateChangeTo(%d) from %d leaves %d active", N, k, j, m.activeStateId()); continue; }
 		for (int q = 0; q < N; q += (N > 16 ? 7 : 1)) if (m.isActive(static_cast<ffsm2::StateID>(q)) != (q == k)) { violation("dispatch-isActive", rp, "N=%d: isActive(%d) wrong with %d active", N, q, k); break; }
 		if (j == 0 || j == N - 1) for (int q = 0; q < N; q += (N > 16 ? 5 : 1)) { bool a = false; TForm<N - 1>::run(m, q, 2, &a); if (a != (q == k)) { violation("dispatch-isActive", rp, "N=%d: isActive<St<%d>>() wrong with %d active", N, q, k); break; } }
@@ -201,13 +201,13 @@ static void dispatch_sweep() {
 		if (j == 0 || j == k || j == N - 1 || j == k + 1) {
 			g_n = 0; m.update(); ++me().cases;
 			Rec wu[6]; int u = 0; if (VX_HEAD) wu[u++] = Rec{-1, M_PRE_UPDATE, 0, nullptr}; wu[u++] = Rec{static_cast<int16_t>(k), M_PRE_UPDATE, 0, nullptr}; if (VX_HEAD) wu[u++] = Rec{-1, M_UPDATE, 0, nullptr}; wu[u++] = Rec{static_cast<int16_t>(k), M_UPDATE, 0, nullptr}; wu[u++] = Rec{static_cast<int16_t>(k), M_POST_UPDATE, 0, nullptr}; if (VX_HEAD) wu[u++] = Rec{-1, M_POST_UPDATE, 0, nullptr};
-			expect_trace("update", k, k, wu, u, rp);
+			expect_trace("update", k, k, wu, u, rp, "dispatch-phase");
 			g_n = 0; m.react(g_ev); ++me().cases;
 			u = 0; if (VX_HEAD) wu[u++] = Rec{-1, M_PRE_REACT, 0, nullptr}; wu[u++] = Rec{static_cast<int16_t>(k), M_PRE_REACT, 0, nullptr}; if (VX_HEAD) wu[u++] = Rec{-1, M_REACT, 0, nullptr}; wu[u++] = Rec{static_cast<int16_t>(k), M_REACT, 0, nullptr}; wu[u++] = Rec{static_cast<int16_t>(k), M_POST_REACT, 0, nullptr}; if (VX_HEAD) wu[u++] = Rec{-1, M_POST_REACT, 0, nullptr};
-			expect_trace("react", k, k, wu, u, rp);
+			expect_trace("react", k, k, wu, u, rp, "dispatch-phase");
 			g_n = 0; m.query(g_q); ++me().cases;
 			u = 0; if (VX_HEAD) wu[u++] = Rec{-1, M_QUERY, 0, nullptr}; wu[u++] = Rec{static_cast<int16_t>(k), M_QUERY, 0, nullptr};
-			expect_trace("query", k, k, wu, u, rp);
+			expect_trace("query", k, k, wu, u, rp, "dispatch-phase");
 			if (m.activeStateId() != k) violation("dispatch-activity", rp, "N=%d: update/react/query moved the machine from %d to %d", N, k, m.activeStateId());
 		}
 	}
